@@ -7,6 +7,9 @@
 //! computed inside the parent process are identical.  Model tie: the `Records` renderers, the `chunks`
 //! object of `FileImage::to_json` and `create_dasm_map` are compared with `Model.Determinism` (the iteration
 //! order the parent process happened to see is passed to the model).
+//! Appended case kinds (`idx >= 64` quick / `>= 320` thorough): tool-object SESSIONS (one Minifier / Tokenizer / Renumberer /
+//! Disassembler object used for several inputs; outputs are part of the digest and are compared with fresh objects, oracle
+//! `object-reuse`), and random-access text files with more than 65536 records (`records-large-*`).
 use crate::util::*;
 use a2kit::fs::{cpm, dos3x, fat, pascal, prodos, DiskFS, FileImage, Records, TextConversion};
 use a2kit::img::{self, names, DiskImage};
@@ -384,10 +387,167 @@ fn records_case(rng: &mut Rng, overlong: bool, obs: &mut Obs) -> (String, RecCas
         rc.overlong, rc.recs.iter().map(|x| x.0).collect::<Vec<usize>>()), rc)
 }
 
+// ------------------------------------------------------------------------------------------------ tool objects
+//
+// "In the same process or a new one": the tool objects (Minifier, Tokenizers, Renumberer, Disassembler) are long-lived
+// in the language servers, and any library user may keep one.  A session case runs a sequence of calls on ONE object
+// of each kind; the outputs go into the per-process digest (op `*-session`), and in the parent every output is also
+// compared with what a FRESH object gives for the same input (oracle `object-reuse`, sig `c20/<tool>/object-reuse`).
+
+/// (signature, pass, replayable detail) of the object-reuse comparisons of one case
+type Reuse = Vec<(String, bool, String)>;
+
+/// Applesoft programs for the minifier sessions: REM-only lines (deleted at level >= 2, references to them are
+/// redirected), branches, and line numbers drawn from one small pool per session, so that a line number that was a
+/// deleted REM line in one program is an ordinary branch target in the next
+fn gen_minify_prog(rng: &mut Rng, pool_start: usize) -> String {
+    let step = *rng.pick(&[5usize, 10, 10, 20]);
+    let n = rng.range(3, 8);
+    let nums: Vec<usize> = (0..n).map(|i| pool_start + i * step).collect();
+    let mut s = String::new();
+    for (i, num) in nums.iter().enumerate() {
+        let t = *rng.pick(&nums);
+        let u = *rng.pick(&nums);
+        let body = if i + 1 < n && rng.chance(35) { format!("REM {}", rng.pick(&["TITLE", "SUBROUTINE", "MAIN LOOP", "X"])) } else {
+            match rng.below(9) {
+                0 => "PRINT \"HELLO\"".to_string(), 1 => format!("GOTO {}", t), 2 => format!("GOSUB {}", t), 3 => format!("IF X < 10 THEN {}", t),
+                4 => format!("ON X GOTO {},{}", t, u), 5 => "X = X + 1".to_string(), 6 => format!("IF A$ = \"Q\" THEN GOTO {}", t), 7 => "INPUT A$".to_string(), _ => "RETURN".to_string() }
+        };
+        s += &format!("{} {}\n", num, body);
+    }
+    s
+}
+
+fn res_bytes<E: std::fmt::Display>(r: Result<String, E>) -> Vec<u8> { match r { Ok(s) => s.into_bytes(), Err(e) => format!("<err {}>", e).into_bytes() } }
+fn res_vec<E>(r: Result<Vec<u8>, E>) -> Vec<u8> { match r { Ok(s) => s, Err(_) => b"<err>".to_vec() } }
+
+fn session_case(rng: &mut Rng, idx: usize, obs: &mut Obs, reuse: &mut Reuse) -> String {
+    use a2kit::lang::applesoft::minifier::Minifier;
+    use a2kit::lang::linenum::Renumber;
+    let show = |b: &[u8]| String::from_utf8_lossy(b).to_string();
+    // ---- minifier: 2-6 programs, levels 1-3, shared line-number pool
+    let pool = *rng.pick(&[10usize, 10, 20, 100]);
+    let mut m = Minifier::new();
+    let mut hist: Vec<String> = Vec::new();
+    for c in 0..rng.range(2, 6) {
+        let start = if rng.chance(80) { pool } else { pool + 5 };
+        let prog = gen_minify_prog(rng, start);
+        let level = rng.range(1, 3);
+        m.set_level(level);
+        let out = res_bytes(m.minify(&prog));
+        let mut f = Minifier::new();
+        f.set_level(level);
+        let fresh = res_bytes(f.minify(&prog));
+        reuse.push(("c20/minifier/object-reuse".to_string(), out == fresh, format!("idx={} op=minifier-session call={} level={} prog={:?} reused={:?} fresh={:?} earlier-calls=[{}]", idx, c, level, prog, show(&out), show(&fresh), hist.join(" ; "))));
+        ob(obs, "minifier-session", out);
+        hist.push(format!("L{} {:?}", level, prog));
+    }
+    // ---- Integer BASIC tokenizer: accepted programs and programs rejected on a late line
+    let mut it = a2kit::lang::integer::tokenizer::Tokenizer::new();
+    let mut hist: Vec<String> = Vec::new();
+    for c in 0..rng.range(2, 5) {
+        let mut p = gen_integer(rng);
+        if rng.chance(45) {
+            let mut lines: Vec<String> = p.lines().map(|l| l.to_string()).collect();
+            let k = rng.range(1, lines.len());
+            lines.insert(k, if rng.chance(50) { format!("{} A={}", 5 + 10 * k, rng.range(32768, 65000)) } else { format!("{} PRINT \"{}\"", 5 + 10 * k, "X".repeat(rng.range(126, 150))) });
+            p = lines.join("\n") + "\n";
+        }
+        let out = res_vec(it.tokenize(p.clone()));
+        let fresh = res_vec(a2kit::lang::integer::tokenizer::Tokenizer::new().tokenize(p.clone()));
+        reuse.push(("c20/integer-tokenizer/object-reuse".to_string(), out == fresh, format!("idx={} op=integer-tokenizer-session call={} prog={:?} reused={} fresh={} earlier-calls=[{}]", idx, c, p, hx(&out), hx(&fresh), hist.join(" ; "))));
+        ob(obs, "integer-tokenizer-session", out);
+        hist.push(format!("{:?}", p));
+    }
+    // ---- Applesoft tokenizer: accepted programs and programs rejected on a late line (line number above 65535)
+    let mut at = a2kit::lang::applesoft::tokenizer::Tokenizer::new();
+    let mut hist: Vec<String> = Vec::new();
+    for c in 0..rng.range(2, 5) {
+        let mut p = gen_applesoft(rng);
+        if rng.chance(45) {
+            let mut lines: Vec<String> = p.lines().map(|l| l.to_string()).collect();
+            let k = rng.range(1, lines.len());
+            lines.insert(k, format!("{} PRINT", rng.range(65536, 99999)));
+            p = lines.join("\n") + "\n";
+        }
+        let addr = *rng.pick(&[2049u16, 2049, 0x4000, 0x6000]);
+        let out = res_vec(at.tokenize(&p, addr));
+        let fresh = res_vec(a2kit::lang::applesoft::tokenizer::Tokenizer::new().tokenize(&p, addr));
+        reuse.push(("c20/applesoft-tokenizer/object-reuse".to_string(), out == fresh, format!("idx={} op=applesoft-tokenizer-session call={} addr={} prog={:?} reused={} fresh={} earlier-calls=[{}]", idx, c, addr, p, hx(&out), hx(&fresh), hist.join(" ; "))));
+        ob(obs, "applesoft-tokenizer-session", out);
+        hist.push(format!("{:?}", p));
+    }
+    // ---- Applesoft renumberer
+    let mut rn = a2kit::lang::applesoft::renumber::Renumberer::new();
+    let mut hist: Vec<String> = Vec::new();
+    for c in 0..rng.range(2, 4) {
+        let p = gen_minify_prog(rng, pool);
+        let (beg, end, first, step) = (rng.below(40), 1000 + rng.below(100), *rng.pick(&[1usize, 100, 1000]), *rng.pick(&[1usize, 7, 10]));
+        let out = res_bytes(rn.renumber(&p, beg, end, first, step));
+        let fresh = res_bytes(a2kit::lang::applesoft::renumber::Renumberer::new().renumber(&p, beg, end, first, step));
+        reuse.push(("c20/renumberer/object-reuse".to_string(), out == fresh, format!("idx={} op=renumberer-session call={} args={},{},{},{} prog={:?} reused={:?} fresh={:?} earlier-calls=[{}]", idx, c, beg, end, first, step, p, show(&out), show(&fresh), hist.join(" ; "))));
+        // the map the renumberer gathers is part of what it offers (LSP); its order is a BTreeMap's
+        if let Ok(d) = rn.gather_defs(&p, 0) { ob(obs, "renumberer-session", format!("{:?}", d.keys().collect::<Vec<_>>()).into_bytes()); }
+        ob(obs, "renumberer-session", out);
+        hist.push(format!("{:?}", p));
+    }
+    // ---- disassembler: several images and processors through one object
+    let mut d = a2kit::lang::merlin::disassembly::Disassembler::new();
+    d.set_program_counter(Some(0x300));
+    for c in 0..rng.range(2, 4) {
+        let n = rng.range(20, 60);
+        let code = rng.bytes(n);
+        let proc = match rng.below(3) { 0 => ProcessorType::_6502, 1 => ProcessorType::_65c02, _ => ProcessorType::_65c816 };
+        let labeling = *rng.pick(&["all", "some", "none"]);
+        let mut img = vec![0u8; 0x300];
+        img.extend_from_slice(&code);
+        let rng_ = a2kit::lang::merlin::disassembly::DasmRange::Range([0x300, 0x300 + code.len()]);
+        let out = res_bytes(d.disassemble(&img, rng_, proc.clone(), labeling));
+        let mut f = a2kit::lang::merlin::disassembly::Disassembler::new();
+        f.set_program_counter(Some(0x300));
+        let fresh = res_bytes(f.disassemble(&img, a2kit::lang::merlin::disassembly::DasmRange::Range([0x300, 0x300 + code.len()]), proc, labeling));
+        reuse.push(("c20/disassembler/object-reuse".to_string(), out == fresh, format!("idx={} op=disassembler-session call={} labeling={} code={}", idx, c, labeling, hx(&code))));
+        ob(obs, "disassembler-session", out);
+    }
+    "tool-session minifier integer-tokenizer applesoft-tokenizer renumberer disassembler".to_string()
+}
+
+/// random-access text with MORE than 65536 non-empty records (legal: a ProDOS file holds 16 MiB, the record length may be
+/// 2): the records derived from the file image must not depend on the order in which the chunk map is walked
+fn big_records_case(rng: &mut Rng, variant: usize, obs: &mut Obs) -> String {
+    let (rec_len, chunks) = match variant % 3 { 0 => (2usize, 258 + rng.below(6)), 1 => (3, 386 + rng.below(6)), _ => (4, 514 + rng.below(6)) };
+    let mut data = vec![0u8; 512 * chunks];
+    for b in data.iter_mut() { *b = b'A' + (rng.next() % 26) as u8; }
+    let mut fimg = match a2kit::fs::prodos::new_fimg(512, false, "BIG.RANDOM") { Ok(f) => f, Err(_) => { ob(obs, "records-large-from-fimg", b"<no-fimg>".to_vec()); return "records-large new_fimg failed".to_string(); } };
+    fimg.desequence(&data);
+    fimg.fs_type = vec![0x04];
+    fimg.aux = vec![rec_len as u8, 0];
+    // rebuild the image from its JSON: the chunks then live in a new HashMap (new hash keys), as in another process
+    let fimg = match FileImage::from_json(&fimg.to_json(None)) { Ok(f) => f, Err(_) => fimg };
+    let mut count = 0usize;
+    ob_res(obs, "records-large-from-fimg", Records::from_fimg(&fimg, rec_len, Ident), |r| {
+        let mut es: Vec<(usize, String)> = r.map.iter().map(|(k, v)| (*k, v.clone())).collect();
+        es.sort();
+        count = es.len();
+        let mut out = Vec::with_capacity(es.len() * 8);
+        for (k, v) in es { out.extend_from_slice(&(k as u32).to_le_bytes()); out.extend_from_slice(v.as_bytes()); out.push(0); }
+        out
+    });
+    ob_res(obs, "records-large-unpack-rec-str", fimg.unpack_rec_str(Some(rec_len), None), |s| s.into_bytes());
+    format!("records-large rec_len={} chunk_len=512 chunks={} bytes={} records-found={} (all bytes are letters: every record is non-empty)", rec_len, chunks, data.len(), count)
+}
+
 /// everything one case observes; identical code in parent and children
-fn run_case(seed: u64, idx: usize) -> (String, Obs, Option<RecCase>) {
+fn run_case(seed: u64, idx: usize, n_regular: usize, n_sessions: usize) -> (String, Obs, Option<RecCase>, Reuse) {
     let mut rng = Rng::new(seed).fork(idx as u64);
     let mut obs: Obs = Vec::new();
+    let mut reuse: Reuse = Vec::new();
+    if idx >= n_regular {
+        // appended kinds (earlier case numbers stay put): tool-object sessions, then the large record sets
+        let k = idx - n_regular;
+        let desc = if k < n_sessions { session_case(&mut rng, idx, &mut obs, &mut reuse) } else { big_records_case(&mut rng, k - n_sessions, &mut obs) };
+        return (desc, obs, None, reuse);
+    }
     let kind = idx % KINDS;
     let variant = idx / KINDS;
     let mut rc = None;
@@ -407,7 +567,7 @@ fn run_case(seed: u64, idx: usize) -> (String, Obs, Option<RecCase>) {
         13 => disk_case(&mut rng, Fs::Dos32, variant, &mut obs),
         _ => disk_case(&mut rng, Fs::Cpm, 3, &mut obs),
     };
-    (desc, obs, rc)
+    (desc, obs, rc, reuse)
 }
 
 /// digests per operation name (several observations of one operation are folded into one digest)
@@ -422,15 +582,19 @@ fn digests(obs: &Obs) -> BTreeMap<String, u64> {
 }
 
 fn case_count(ctx: &Ctx) -> usize { ctx.n(64, 320) }
+/// appended after the regular cases: tool-object sessions and large record sets
+fn session_count(ctx: &Ctx) -> usize { ctx.n(12, 120) }
+fn big_count(ctx: &Ctx) -> usize { ctx.n(2, 3) }
 
 fn child(ctx: &mut Ctx) {
     let n = case_count(ctx);
+    let (ns, nb) = (session_count(ctx), big_count(ctx));
     let mut out = String::new();
-    for idx in 0..n {
+    for idx in 0..n + ns + nb {
         if !ctx.out.wants(idx) { continue; }
         let seed = ctx.seed;
-        match guarded(move || run_case(seed, idx)) {
-            Ok((_, obs, _)) => for (op, d) in digests(&obs) { out += &format!("X\t{}\t{}\t{:016x}\n", idx, op, d); },
+        match guarded(move || run_case(seed, idx, n, ns)) {
+            Ok((_, obs, _, _)) => for (op, d) in digests(&obs) { out += &format!("X\t{}\t{}\t{:016x}\n", idx, op, d); },
             Err(p) => out += &format!("X\t{}\tpanic\t{:016x}\n", idx, fnv(panic_site(&p).as_bytes())),
         }
     }
@@ -444,17 +608,20 @@ fn sig_for(op: &str) -> String {
 pub fn run(ctx: &mut Ctx) {
     if std::env::var(CHILD_ENV).is_ok() { child(ctx); return; }
     let n = case_count(ctx);
+    let (ns, nb) = (session_count(ctx), big_count(ctx));
     let nproc = ctx.n(8, 64);
     // ---- parent: every case twice in this process
     let mut parent: BTreeMap<(usize, String), u64> = BTreeMap::new();
     let mut descs: BTreeMap<usize, String> = BTreeMap::new();
-    for idx in 0..n {
+    for idx in 0..n + ns + nb {
         if !ctx.out.wants(idx) { continue; }
         let seed = ctx.seed;
-        let r1 = guarded(move || run_case(seed, idx));
-        let r2 = guarded(move || run_case(seed, idx));
+        let r1 = guarded(move || run_case(seed, idx, n, ns));
+        let r2 = guarded(move || run_case(seed, idx, n, ns));
         match (r1, r2) {
-            (Ok((desc, obs1, rc)), Ok((_, obs2, _))) => {
+            (Ok((desc, obs1, rc, reuse)), Ok((_, obs2, _, _))) => {
+                for (sig, pass, detail) in &reuse { ctx.out.oracle(*pass, "object-reuse", sig, detail); }
+                if !reuse.is_empty() { ctx.out.count_n("object-reuse-comparisons", reuse.len() as u64); }
                 let d1 = digests(&obs1);
                 let d2 = digests(&obs2);
                 for (op, d) in &d1 {
